@@ -8,6 +8,8 @@ import (
 	"net/url"
 	"path"
 	"strings"
+	"sync"
+	"sync/atomic"
 	"time"
 
 	"github.com/AdguardTeam/AdGuardDNS/internal/agdcache"
@@ -100,12 +102,23 @@ type cacheItem struct {
 // Filter is a filter that matches hosts by their hashes based on a hash-prefix
 // table.  It should be initially refreshed with [Filter.RefreshInitial].
 type Filter struct {
-	logger   *slog.Logger
-	cloner   *dnsmsg.Cloner
-	hashes   *Storage
-	refr     *refreshable.Refreshable
-	errColl  errcoll.Interface
-	metrics  internal.Metrics
+	logger  *slog.Logger
+	cloner  *dnsmsg.Cloner
+	hashes  *Storage
+	refr    *refreshable.Refreshable
+	errColl errcoll.Interface
+	metrics internal.Metrics
+
+	// resCacheMu makes sure that results computed using the previous hashes
+	// aren't put into resCache after it has been cleared by a refresh.  It is
+	// not held while the hashes are being matched or reset, so refreshes don't
+	// block the filtering.
+	resCacheMu *sync.RWMutex
+
+	// resCacheGen is the number of times resCache has been cleared.  It is
+	// only changed under resCacheMu.
+	resCacheGen *atomic.Uint64
+
 	resCache agdcache.Interface[internal.CacheKey, *cacheItem]
 	id       internal.ID
 	repIP    netip.Addr
@@ -131,13 +144,15 @@ func NewFilter(c *FilterConfig) (f *Filter, err error) {
 	c.CacheManager.Add(path.Join(IDPrefix, string(id)), resCache)
 
 	f = &Filter{
-		logger:   c.Logger,
-		cloner:   c.Cloner,
-		hashes:   c.Hashes,
-		errColl:  c.ErrColl,
-		metrics:  c.Metrics,
-		resCache: resCache,
-		id:       id,
+		logger:      c.Logger,
+		cloner:      c.Cloner,
+		hashes:      c.Hashes,
+		errColl:     c.ErrColl,
+		metrics:     c.Metrics,
+		resCacheMu:  &sync.RWMutex{},
+		resCacheGen: &atomic.Uint64{},
+		resCache:    resCache,
+		id:          id,
 	}
 
 	repHost := c.ReplacementHost
@@ -199,6 +214,11 @@ func (f *Filter) FilterRequest(
 		return f.filteredResult(req, item.matched, fam)
 	}
 
+	// Get the generation of the cache before matching, so that a result that
+	// could have been computed using the hashes from before a refresh doesn't
+	// get into the cache cleared by that refresh.
+	gen := f.resCacheGen.Load()
+
 	var matched string
 	sub := hashableSubdomains(host)
 	for _, s := range sub {
@@ -210,10 +230,7 @@ func (f *Filter) FilterRequest(
 	}
 
 	if matched == "" {
-		f.resCache.Set(cacheKey, &cacheItem{
-			matched: "",
-			host:    host,
-		})
+		f.setInCache(gen, cacheKey, "", host)
 
 		return nil, nil
 	}
@@ -224,10 +241,7 @@ func (f *Filter) FilterRequest(
 		return nil, err
 	}
 
-	f.resCache.Set(cacheKey, &cacheItem{
-		matched: matched,
-		host:    host,
-	})
+	f.setInCache(gen, cacheKey, matched, host)
 
 	f.updateCacheSizeMetrics(f.resCache.Len())
 
@@ -336,6 +350,31 @@ func (f *Filter) respForFamily(
 	}
 }
 
+// setInCache puts the matching data into the result cache, unless the cache
+// has been cleared since gen was received.
+func (f *Filter) setInCache(gen uint64, k internal.CacheKey, matched, host string) {
+	f.resCacheMu.RLock()
+	defer f.resCacheMu.RUnlock()
+
+	if f.resCacheGen.Load() != gen {
+		return
+	}
+
+	f.resCache.Set(k, &cacheItem{
+		matched: matched,
+		host:    host,
+	})
+}
+
+// clearCache clears the result cache and starts its new generation.
+func (f *Filter) clearCache() {
+	f.resCacheMu.Lock()
+	defer f.resCacheMu.Unlock()
+
+	f.resCacheGen.Add(1)
+	f.resCache.Clear()
+}
+
 // updateCacheSizeMetrics updates cache size metrics.
 func (f *Filter) updateCacheSizeMetrics(size int) {
 	switch id := f.id; id {
@@ -421,7 +460,7 @@ func (f *Filter) refresh(ctx context.Context, acceptStale bool) (err error) {
 		return fmt.Errorf("%s: resetting: %w", f.id, err)
 	}
 
-	f.resCache.Clear()
+	f.clearCache()
 
 	f.logger.InfoContext(ctx, "reset hosts", "num", count)
 
